@@ -20,7 +20,7 @@ EXPLANATION = (
     'name is built by a position sort; R3 the three API functions return only values built from sorted or '
     'source-ordered sequences; R4 no id()/hash() value is computed on a path reachable from the API entry points. '
     'Equality of the outputs of two concrete processes is NOT decided.')
-TECHNIQUE = 'iteration-order taint (abstract kinds + local escape analysis) + call-graph reachability for id()/hash()'
+TECHNIQUE = 'iteration-order taint (abstract kinds + local escape analysis) + abstract interpretation of the result-building code under both set-iteration orders + call-graph reachability for id()/hash()'
 
 SKIP_FILES = ('supp/umsgpack.py',)
 SANITISERS = ('sorted', 'min', 'max', 'len', 'any', 'all', 'set', 'frozenset', 'sum', 'bool')
